@@ -40,11 +40,12 @@ ASSUMPTIONS = [
 FLOORS = {
     "quick": {"monitor:parse.verdict_is_exactly_bool": 200000, "scale:families": 33,
               "bytes:mutants": 100000, "via:str": 1000, "via:file": 200, "long:cases": 400,
-              "via:bytearray": 2000, "via:debug": 2000, "oddargs:cases": 15000},
+              "via:bytearray": 2000, "via:debug": 2000, "oddargs:cases": 15000,
+              "via:used": 8000},
     "thorough": {"monitor:parse.verdict_is_exactly_bool": 3000000, "scale:families": 33,
                  "bytes:mutants": 2000000, "via:str": 10000, "via:file": 1000,
                  "long:cases": 400, "oddargs:cases": 15000, "via:bytearray": 20000,
-                 "via:debug": 20000},
+                 "via:debug": 20000, "via:used": 150000},
 }
 SHARD_TIMEOUT = {"quick": 600, "thorough": 3000}
 
@@ -90,6 +91,9 @@ def plan(tier, seed):
 
 
 # ---------------------------------------------------------------------------
+USEDP = {"p": None, "prev": None}
+
+
 def observe(data, res: Result, label, via="bytes", path=None):
     """One monitored execution; reports every monitor firing."""
     contracts.lex_reset()
@@ -109,12 +113,25 @@ def observe(data, res: Result, label, via="bytes", path=None):
         with contextlib.redirect_stdout(_Sink()):
             o = lab.parse(data, parser=lab.sl_parser.Parser(debug=True))
         nbytes = len(data)
+    elif via == "used":
+        # one long-lived Parser object takes a whole stream of inputs, whatever the earlier
+        # ones left behind (a failure half-way through a list, an open block, a lexer error)
+        if USEDP["p"] is None:
+            USEDP["p"] = lab.sl_parser.Parser()
+        prev = USEDP["prev"]
+        o = lab.parse(data, parser=USEDP["p"])
+        USEDP["prev"] = data
+        nbytes = len(data)
+        if o.kind != "ret":
+            USEDP["p"] = None  # whatever broke it: start the next stream afresh
     else:
         o = lab.parse(data)
         nbytes = len(data)
     res.count("via:" + via)
     res.count("outcome:%s" % o.verdict())
     wit = {"input": data, "via": via, "label": label}
+    if via == "used":
+        wit["previous_input_on_the_same_parser"] = prev
     if o.kind == "exc":
         res.violation({"kind": "exception", "type": o.exc[0], "frame": o.exc[2]},
                       dict(wit, message=o.exc[1]))
@@ -239,6 +256,8 @@ def run_bytes(shard, res):
                     via = "debug"
                 elif r > 0.96:
                     via = "bytearray"
+                elif r > 0.86:
+                    via = "used"
                 elif r < 0.045:
                     via = "file"
                     with open(tmp.name, "wb") as f:
@@ -444,6 +463,12 @@ def run_atheris(shard, res):
 def replay(witness, res: Result):
     from ..core import unjson_bytes
     contracts.install_parser_contracts()
-    if "input" in witness:
+    if "input" in witness and witness.get("via") == "used":
+        USEDP["p"] = None
+        if witness.get("previous_input_on_the_same_parser") is not None:
+            observe(unjson_bytes(witness["previous_input_on_the_same_parser"]), Result(),
+                    "replay-previous", "used")
+        observe(unjson_bytes(witness["input"]), res, "replay", "used")
+    elif "input" in witness:
         observe(unjson_bytes(witness["input"]), res, "replay", witness.get("via", "bytes")
                 if witness.get("via") != "file" else "bytes")
